@@ -174,8 +174,114 @@ func registerIntrinsics(p *Program) {
 		}
 		return Tuple{v, true}
 	})
+	// sync.Pool: Get returns an object Put earlier in this execution or a fresh New() (both
+	// are explored); an object in the pool outlives the call that put it there.
+	type poolState struct{ items []Value }
+	poolOf := func(m *Machine, recv Value) *poolState {
+		key := recv.(*Value)
+		if ps, ok := m.Scratch[key].(*poolState); ok {
+			return ps
+		}
+		ps := &poolState{}
+		m.Scratch[key] = ps
+		return ps
+	}
+	model("(*sync.Pool).Get", func(m *Machine, fr *frame, args []Value) Value {
+		ps := poolOf(m, args[0])
+		if n := len(ps.items); n > 0 && m.ChooseN(2, "sync.Pool.Get reuses") == 0 {
+			v := ps.items[n-1]
+			ps.items = ps.items[:n-1]
+			return v
+		}
+		st := (*args[0].(*Value)).(Struct)
+		idx := FieldIndex(p.ImportedType("sync", "Pool"), "New")
+		if idx < 0 {
+			unsupported("sync.Pool without field New")
+		}
+		newFn := st[idx]
+		if isNilFunc(newFn) {
+			return Iface{}
+		}
+		return m.Call(newFn)
+	})
+	model("(*sync.Pool).Put", func(m *Machine, fr *frame, args []Value) Value {
+		ps := poolOf(m, args[0])
+		ps.items = append(ps.items, args[1])
+		return nil
+	})
+
+	// slices.Insert: the standard library's body compares addresses (unsafe) to detect
+	// overlap; modelled with the documented semantics, including the in-place case
+	// that writes into the argument's spare capacity.
+	p.RegPrefix("slices.Insert", "model", func(m *Machine, fr *frame, args []Value) Value {
+		s := args[0].([]Value)
+		i := int(asInt64(m.concretize(args[1], "slices.Insert index")))
+		v := args[2].([]Value)
+		if i < 0 || i > len(s) {
+			panic(targetPanic{v: "runtime error: slice bounds out of range", what: "index"})
+		}
+		if len(v) == 0 {
+			return s
+		}
+		n, k := len(s), len(v)
+		if n+k > cap(s) {
+			out := make([]Value, 0, n+k)
+			out = append(out, s[:i]...)
+			out = append(out, v...)
+			return append(out, s[i:]...)
+		}
+		full := s[:n+k]
+		if m.TrackShared && m.sharedCells[&full[n]] {
+			m.noteSharedWrite("slices.Insert shifts elements inside a shared slice's backing array")
+		}
+		vals := append([]Value(nil), v...)
+		copy(full[i+k:], s[i:n])
+		copy(full[i:], vals)
+		return full
+	})
+
+	// A value stored into a sync.Map is published to every goroutine: a later write into a
+	// map or cell reachable from it is a write to shared memory.
+	publish := func(m *Machine, v Value) {
+		if i, ok := v.(Iface); ok {
+			v = i.V
+		}
+		switch x := v.(type) {
+		case *OMap:
+			if x != nil {
+				x.Shared = true
+			}
+		case *Value:
+			if x != nil {
+				m.MarkShared(x)
+			}
+		case []Value:
+			full := x[:cap(x)]
+			for i := range full {
+				m.MarkShared(&full[i])
+			}
+		}
+	}
 	model("(*sync.Map).Store", func(m *Machine, fr *frame, args []Value) Value {
 		syncMap(m, args[0]).Set(m, args[1], args[2])
+		publish(m, args[2])
+		return nil
+	})
+	model("(*sync.Map).LoadOrStore", func(m *Machine, fr *frame, args []Value) Value {
+		om := syncMap(m, args[0])
+		if v, ok := om.Get(m, args[1]); ok {
+			return Tuple{v, true}
+		}
+		om.Set(m, args[1], args[2])
+		publish(m, args[2])
+		return Tuple{args[2], false}
+	})
+	model("(*sync.Map).Delete", func(m *Machine, fr *frame, args []Value) Value {
+		syncMap(m, args[0]).Delete(m, args[1])
+		return nil
+	})
+	model("(*sync.Map).Clear", func(m *Machine, fr *frame, args []Value) Value {
+		syncMap(m, args[0]).entries = nil
 		return nil
 	})
 
